@@ -1907,6 +1907,7 @@ private:
     LIBCUCKOO_VERIF_HOOK(LIBCUCKOO_VH_EMPLACE, this, new_locks.size(),
                          reinterpret_cast<unsigned long>(new_locks.data()));
     all_locks_.emplace_back(std::move(new_locks));
+    LIBCUCKOO_VERIF_HOOK(LIBCUCKOO_VH_EMPLACED, this, 0, 0);
   }
 
   // cuckoo_expand_simple will resize the table to at least the given
